@@ -13,7 +13,7 @@ import numpy as np
 
 from pyvc import native
 
-FINITE = [0.5, 1.0, 1.0, 2.0, 3.0]
+FINITE = [0.0, 0.5, 1.0, 1.0, 2.0, 3.0]
 WITH_INF = [0.5, 1.0, 2.0, float('inf')]
 
 
@@ -67,7 +67,9 @@ def _check_result(res, pool, n, b, form, arg, rej=None):
         return 'budget ceil(n/quantile)=%d: consumed %d batches, expected %d' % (math.ceil(n / arg), nb, math.ceil(math.ceil(n / arg) / b))
     adm = np.ones(len(rec['d']), bool) if form != 'threshold' else rec['d'] <= arg
     if adm.sum() < n:
-        return None       # fewer admissible draws than requested: outside the property's premise
+        if form == 'threshold':
+            return 'the run finished after consuming only %d draws with discrepancy <= threshold %r (n_samples=%d): it returns draws above the threshold' % (int(adm.sum()), arg, n)
+        return None       # fewer draws than requested: outside the property's premise
     if np.any(np.diff(dret) < 0):
         return 'returned discrepancies are not ascending: %r' % dret.tolist()
     # row consistency + provenance: match every returned row to a distinct recorded draw
@@ -108,7 +110,7 @@ def cases(tier, with_inf):
     nb_max = 3 if tier == 'quick' else 4
     for n, b in itertools.product(range(1, nb_max + 1), repeat=2):
         forms = [('n_sim', ns) for ns in sorted({n, n + 1, 2 * b + 1, 3 * b})] + [('quantile', q) for q in (0.5, 0.34)] + \
-                [('threshold', thr) for thr in (1.0, 2.0)]
+                [('threshold', thr) for thr in (0.0, 1.0, 2.0)]     # 0.0: exact-match ABC (a falsy threshold); 1.0: ties at the threshold
         for form, arg in forms:
             if form == 'n_sim' and arg < n:
                 continue
@@ -122,6 +124,8 @@ def run(tier='quick', seed=0, stop_first=True, with_inf=False):
     fails = []
     seeds = range(seed, seed + (2 if tier == 'quick' else 6))
     for n, b, form, arg in cases(tier, with_inf):
+        if form == 'threshold' and not any(v <= arg for v in values):
+            continue          # no draw can ever be accepted: the run does not terminate (outside the property)
         for sd in seeds:
             n_cases += 1
             nontriv += 1 if (n != b) else 0
